@@ -742,6 +742,84 @@ func corpus() []desc {
 		directed("POST /a HTTP/1.1\r\nHost: h\r\nTransfer-Encoding: chunked\r\n\r\n3\r\nabc\r\n0\r\nGET /b HTTP/1.1\r\nHost: h\r\n\r\n", "trailer-is-next-request"),
 		directed("POST /a HTTP/1.1\r\nHost: h\r\nTransfer-Encoding: chunked\r\n\r\n3\r\nabc\r\n0\r\nX: GET /b HTTP/1.1\r\n\r\n"+get("/c"), "trailer-swallows"),
 	)
+	// chunked-coding anomalies, each followed by a well-formed request
+	ch := func(body string) string {
+		return "POST /c HTTP/1.1\r\nHost: h\r\nTransfer-Encoding: chunked\r\n\r\n" + body + get("/after")
+	}
+	for i, body := range []string{
+		"3\r\nabcXY0\r\n\r\n",              // chunk data not followed by CRLF
+		"3\r\nabc\n0\r\n\r\n",               // LF only after the data
+		"3\r\nabc\r\r0\r\n\r\n",            // CR CR after the data
+		"3\nabc\r\n0\r\n\r\n",               // LF only after the size
+		"3;a\nb\r\nabc\r\n0\r\n\r\n",       // LF inside a chunk extension
+		"3;a\rb\r\nabc\r\n0\r\n\r\n",       // bare CR inside a chunk extension
+		"0x3\r\nabc\r\n0\r\n\r\n",           // 0x prefix: size 0, then garbage
+		"+3\r\nabc\r\n0\r\n\r\n",            // sign
+		"3 ;a\r\nabc\r\n0\r\n\r\n",          // BWS before the extension
+		"3 \r\nabc\r\n0 \r\n\r\n",           // trailing whitespace
+		"3x\r\nabc\r\n0\r\n\r\n",            // junk after the size
+		"03\r\nabc\r\n00\r\n\r\n",           // leading zeros
+		"A\r\n0123456789\r\n0\r\n\r\n",      // upper-case hex
+		"10000000000000003\r\nabc\r\n0\r\n\r\n", // 17 hex digits (wraps to 3 in 64 bits)
+		"ffffffffffffffff\r\nabc\r\n0\r\n\r\n", // 16 hex digits
+		"3\r\nabc\r\n0\r\n",                  // no final CRLF: the next request becomes the trailer section
+		"3\r\nabc\r\n0\r\nX-T: v\r\n\r\n",   // trailer field
+		"3\r\nabc\r\n0\r\nX-T: v\n\r\n",     // trailer field ended by LF
+		"3\r\nabc\r\n0\r\nContent-Length: 9\r\n\r\n", // forbidden trailer
+		"3\r\nabc\r\n0\r\n X: y\r\n\r\n",    // trailer section starting with whitespace
+		"3\r\nabc\r\n\r\n0\r\n\r\n",         // empty line where a chunk size is expected
+		"\r\n3\r\nabc\r\n0\r\n\r\n",         // empty line before the first chunk
+		"3\r\nab\r\n0\r\n\r\n",              // size larger than the data (swallows the CRLF)
+		"2\r\nabc\r\n0\r\n\r\n",             // size smaller than the data
+	} {
+		l = append(l, directed(ch(body), "chunk-"+strconv.Itoa(i)))
+	}
+	// Content-Length / Transfer-Encoding order and spelling, each with the body both readings need and a follower
+	for i, h := range []string{
+		"Transfer-Encoding: chunked\r\nContent-Length: 16\r\n",
+		"Content-Length: 16\r\nTransfer-Encoding: chunked\r\n",
+		"Transfer-Encoding: chunked\r\nContent-Length: 3\r\n",
+		"Transfer-Encoding: chunked\r\ncontent-length: 16\r\n",
+		"transfer-encoding: chunked\r\nCONTENT-LENGTH: 16\r\n",
+		"Transfer-Encoding: chunked\r\nTransfer-Encoding: identity\r\n",
+		"Transfer-Encoding: identity\r\nContent-Length: 16\r\n",
+		"Content-Length: 16\r\nContent-Length: 16\r\n",
+		"Content-Length: 16\r\nContent-Length: 3\r\n",
+		"Content-Length: 3\r\nContent-Length: 16\r\n",
+		"Content-Length: 16, 16\r\n",
+		"Content-Length : 16\r\n",
+		"Content-Length\t: 16\r\n",
+		"Transfer-Encoding : chunked\r\n",
+		" Content-Length: 16\r\n",
+		"X: y\r\n Content-Length: 16\r\n",
+		"Content-Length: 16\r\n \r\n",
+		"Content-Length:\r\n 16\r\n",
+		"Content-Length: 1\r\n 6\r\n",
+	} {
+		l = append(l, directed("POST /o HTTP/1.1\r\nHost: h\r\n"+h+"\r\n5\r\nhello\r\n0\r\n\r\n"+get("/after"), "order-"+strconv.Itoa(i)))
+	}
+	// head syntax
+	for i, h := range []string{
+		"GET /h HTTP/1.1\r\nHost: h\r\n\n",            // blank line is a bare LF (rejected since f7a0f16)
+		"GET /h HTTP/1.1\nHost: h\n\r\n",              // LF line ends, CRLF blank line
+		"GET /h HTTP/1.1\r\nHost: h\r\r\n\r\n",        // CR CR LF
+		"\r\n\r\nGET /h HTTP/1.1\r\nHost: h\r\n\r\n",  // leading empty lines
+		"GET /h HTTP/1.1\r\n\r\n",                     // no Host
+		"GET /h HTTP/1.0\r\nConnection: keep-alive\r\n\r\n",
+		"GET /h HTTP/1.0\r\nconnection: keep-alive\r\n\r\n",
+		"GET /h HTTP/1.1\r\nHost: h\r\nNoColon\r\n\r\n",
+		"GET /h HTTP/1.1\r\nHost: h\r\n: v\r\n\r\n",
+		"GET  /h HTTP/1.1\r\nHost: h\r\n\r\n",
+		"GET /h  HTTP/1.1\r\nHost: h\r\n\r\n",
+		"GET /h HTTP/1.1 \r\nHost: h\r\n\r\n",
+		"GET /h\r\nHost: h\r\n\r\n",
+		"G@T /h HTTP/1.1\r\nHost: h\r\n\r\n",
+		"GET /h HTTP/1.1\r\nHost: h:x\r\n\r\n",        // parseURI error
+		"GET http://[::1/ HTTP/1.1\r\nHost: h\r\n\r\n",
+		"GET /h HTTP/1.1\r\nHost: h\r\nX: a\x00b\r\n\r\n",
+	} {
+		l = append(l, directed(h+get("/after"), "head-"+strconv.Itoa(i)))
+	}
 	big := directed("POST /a HTTP/1.1\r\nHost: h\r\nContent-Length: 30\r\n\r\n"+strings.Repeat("b", 30)+get("/b"), "maxbody")
 	big.MaxBody = 20
 	l = append(l, big)
